@@ -314,6 +314,26 @@ def main_check(mod, argv):
                 badax = [a for a in axl if a.split(".")[-1] not in ALLOWED_AXIOMS]
                 if badax or "type-in-type: <none>" not in out.replace("relying on ", "") or "positivity is assumed: <none>" not in out:
                     proof_broken.append("coqchk reports non-allowed context: axioms=%s" % axl)
+        # 2b. fallback for the failing-input search: when the regenerated model of this property does not build
+        # (translator refused a function, or the regenerated file no longer compiles), rebuild the executable model
+        # from the golden copy of the generated files (the model of the last tree on which everything checked), so
+        # that the correspondence can still look for a concrete input on which the changed code leaves the property.
+        used_golden = False
+        if getattr(mod, "EXTRACT", None) and (not model_ok or mine_untr):
+            import shutil
+            gdir = os.path.join(ROOT, "golden")
+            tags = getattr(mod, "GEN_TAGS", [])
+            copied = []
+            for f in sorted(os.listdir(gdir)) if os.path.isdir(gdir) else []:
+                if f.endswith(".v") and any(f.startswith(t) for t in tags):
+                    shutil.copy(os.path.join(gdir, f), os.path.join(COQ, "gen", f))
+                    copied.append(f)
+            if copied:
+                rc, out, dt = coq_make([mod.EXTRACT])
+                if rc == 0:
+                    model_ok = True
+                    used_golden = True
+                    notes.append("executable model rebuilt from golden/%s because the regenerated one does not build" % ",".join(copied))
         # 3. implementation harness + oracle
         exes = {}
         if getattr(mod, "HARNESS", None):
@@ -456,6 +476,7 @@ def main_check(mod, argv):
                                "mismatches": mismatches, "oracle": bool(model_out is not None)},
             "translator": {"untranslatable": untr, "drift_from_golden": drift},
             "proof_broken": proof_broken,
+            "model_from_golden_copy": used_golden,
             "coqchk": coqchk_info,
             "known_findings_hit": {k: v[1] for k, v in kf_hit.items()},
         },
